@@ -76,7 +76,7 @@ def required(tier):
         "helper_gp_with_excluded_mass": 300, "prog_cases": 150, "prog_refmasked_cases": 20, "prog_alt_listing_checked": 150,
         "prog_gt_checked": 300, "prog_gt_with_missing": 40, "prog_afp_checked": 150, "prog_gp_checked": 60,
         "prog_gp_with_excluded_mass": 15, "prog_record_lines_checked": 100, "prog_exact_threshold_cases": 20,
-        "bam_records_checked": 20, "bam_membership_decided": 40, "bam_gt_checked": 40,
+        "bam_records_checked": 20, "bam_membership_decided": 40, "bam_gt_checked": 40, "prog_cases_with_more_than_127_alts": 8,
     }
 
 
@@ -452,6 +452,39 @@ def gen_prog_case(rng):
     return {"kind": "prog", "n_pos": n_pos, "sequence": seq, "start": int(rng.integers(0, 1000)), "variants": variants, "exact": exact,
             "chains": chains, "keep": keep, "burn": burn, "threshold": thr, "threshold_kind": how, "samples": samples,
             "format": opts, "info": info_opts, "layout_seed": int(rng.integers(1, 2**31 - 1)), "pool": pool}
+
+
+def gen_prog_case_wide(rng):
+    """A locus at which MANY haplotypes are listed (130-300 ALT alleles: beyond int8 / uint8 allele numbers): 30-60 samples
+    of ploidy 4-6, each certain of a genotype made of its own private haplotypes plus, sometimes, a shared one."""
+    n_pos = int(rng.integers(9, 11))
+    n_alleles = [2] * n_pos
+    L = n_pos + int(rng.integers(0, 4))
+    seq = "".join(BASES[int(i)] for i in rng.integers(0, 4, size=L))
+    offs = sorted(int(i) for i in rng.permutation(L)[:n_pos])
+    variants = []
+    for o in offs:
+        others = [b for b in BASES if b != seq[o]]
+        rng.shuffle(others)
+        variants.append({"offset": o, "alleles": [seq[o]] + others[:1]})
+    n_s = int(rng.integers(30, 61))
+    codes = [int(c) for c in rng.permutation(np.arange(1, 2 ** n_pos))]   # all non-reference haplotypes, shuffled
+    haps = [[(c >> j) & 1 for j in range(n_pos)] for c in codes]
+    shared = haps.pop()
+    ref = [0] * n_pos
+    chains, keep, burn = 2, 16, int(rng.choice([0, 5]))
+    R = chains * keep
+    samples = []
+    for i in range(n_s):
+        ploidy = int(rng.integers(4, 7))
+        g = [haps.pop() for _ in range(ploidy - 1)]
+        g.append([ref, shared, haps.pop()][int(rng.integers(3))])
+        rng.shuffle(g)
+        samples.append({"name": "S%d" % i, "ploidy": ploidy, "genotypes": [g], "counts": [R], "N": R, "read_calls": [], "read_counts": []})
+    pool = [ref, shared] + [h for s_ in samples for h in s_["genotypes"][0]]
+    return {"kind": "prog", "wide": True, "n_pos": n_pos, "sequence": seq, "start": int(rng.integers(0, 1000)), "variants": variants, "exact": True,
+            "chains": chains, "keep": keep, "burn": burn, "threshold": float(rng.choice([0.0, 0.2, 1.0])), "threshold_kind": "fixed", "samples": samples,
+            "format": [f for f in ("AFP", "AOP") if rng.random() < 0.5], "info": [], "layout_seed": int(rng.integers(1, 2**31 - 1)), "pool": pool}
 
 
 # ---------------------------------------------------------------------------------------------------------------------
@@ -904,7 +937,10 @@ def run_shard(tier, seed, spec, col):
             col.sample(case)
     for i in range(spec["prog_cases"]):
         rng = gen.rng_for(seed, ID, 1000 + sh, i)
-        case = gen_prog_case(rng)
+        wide = i == 1 or (tier == "thorough" and i % 40 == 1)
+        case = gen_prog_case_wide(rng) if wide else gen_prog_case(rng)
+        if wide:
+            col.count("prog_cases_with_more_than_127_alts")
         run_prog_case(case, col)
         if sh == 0 and i == 0:
             col.sample({k: v for k, v in case.items() if k != "pool"})
